@@ -10,9 +10,11 @@ import (
 )
 
 // Lin is an integer linear form over symbolic atoms:
-//   "N:<quorum>"  size of a quorum (…QuorumCount() or len(….Quorum))
-//   "T"           the round threshold (GetThreshold() / .Threshold)
-//   "c:<quorum>:<K>" number of quorum members whose Status equals constant K
+//
+//	"N:<quorum>"  size of a quorum (…QuorumCount() or len(….Quorum))
+//	"T"           the round threshold (GetThreshold() / .Threshold)
+//	"c:<quorum>:<K>" number of quorum members whose Status equals constant K
+//
 // plus a constant term.
 type Lin struct {
 	Coef  map[string]int
@@ -279,14 +281,67 @@ type StatusCond struct {
 }
 
 // StatusConds lists the status tests of fn.
-func StatusConds(fn *ssa.Function) []StatusCond {
+func StatusConds(fn *ssa.Function) []StatusCond { return StatusCondsUnder(fn, nil) }
+
+// ConstIntUnder evaluates v to an integer constant under the assumption that the cut edges are never taken: a phi
+// collapses to the common constant of its alternatives whose predecessor is still reachable from the entry.
+func ConstIntUnder(fn *ssa.Function, v ssa.Value, cut []Edge) (int64, bool) {
+	return constIntUnder(fn, v, cut, 0)
+}
+
+func constIntUnder(fn *ssa.Function, v ssa.Value, cut []Edge, depth int) (int64, bool) {
+	if k, ok := ConstInt(v); ok {
+		return k, true
+	}
+	if depth > 6 || len(cut) == 0 {
+		return 0, false
+	}
+	p, ok := Resolve(v).(*ssa.Phi)
+	if !ok {
+		return 0, false
+	}
+	b := p.Block()
+	have, val := false, int64(0)
+	for i, e := range p.Edges {
+		pred := b.Preds[i]
+		if len(pred.Instrs) == 0 {
+			continue
+		}
+		// is the edge pred->b usable: pred reachable avoiding the cuts, and the edge itself not cut
+		if !ReachableAvoiding(fn, pred.Instrs[len(pred.Instrs)-1], cut, nil) {
+			continue
+		}
+		isCut := false
+		for _, c := range cut {
+			if c.From == pred && c.Succ < len(pred.Succs) && pred.Succs[c.Succ] == b {
+				// cut only if every edge from pred to b is cut (an If with both arms to b is not produced by go/ssa)
+				isCut = true
+			}
+		}
+		if isCut {
+			continue
+		}
+		k, ok := constIntUnder(fn, e, cut, depth+1)
+		if !ok {
+			return 0, false
+		}
+		if have && k != val {
+			return 0, false
+		}
+		have, val = true, k
+	}
+	return val, have
+}
+
+// StatusCondsUnder is StatusConds where the constant side may be a value that is constant under the assumption.
+func StatusCondsUnder(fn *ssa.Function, cut []Edge) []StatusCond {
 	var out []StatusCond
 	for _, c := range Conds(fn) {
 		if c.Op != token.EQL && c.Op != token.NEQ {
 			continue
 		}
 		for _, pr := range [][2]ssa.Value{{c.X, c.Y}, {c.Y, c.X}} {
-			k, ok := ConstInt(pr[1])
+			k, ok := ConstIntUnder(fn, pr[1], cut)
 			if !ok {
 				continue
 			}
